@@ -14,7 +14,7 @@ def directivesOfTextC (text : String) : List (Directive × Nat) :=
   match cFileSource text with
   | .ok (lls, _, _) =>
     lls.filterMap fun ll =>
-      if ll.cat == .cppDirective then (directiveOf ll.text ll.start).map fun d => (d, directiveCol ll.text) else none
+      if ll.isDirective then (directiveOf ll.text ll.start).map fun d => (d, directiveCol ll.text) else none
   | .error _ => []
 
 /-- the events `insert_directive_node` reports for a file, with line, column, name and spelling -/
